@@ -265,6 +265,11 @@ func runC04(c *core.Ctx) {
 		sc := gen.NewSchema(gen.New(c.Rng.U64()))
 		gen.Pick(c.Rng, gen.SchemaFaults).Apply(c.Rng, sc)
 		loads[i] = lc{partition(c.Rng, sc.Chunks(), 1+c.Rng.Intn(3))}
+		// now and then a source that (legally) extends a type of the prelude: it concerns this load only
+		if i%40 == 7 {
+			loads[i].srcs = append(loads[i].srcs, gen.Pick(c.Rng, []string{"extend type __Type { extra: Int }", "directive @tag on SCALAR\nextend scalar ID @tag",
+				"extend enum __TypeKind { EXTRA }", "extend type __Field { note: String }"}))
+		}
 	}
 	var nLoadErr, nValErr int64
 	c.Pool.ParFor(nSch, func(w, i int) {
@@ -283,6 +288,10 @@ func runC04(c *core.Ctx) {
 		file, _ := ge.Extensions["file"].(string)
 		src, known := files[file]
 		if !known {
+			if file != "" && file != "prelude.graphql" {
+				c.ReportOracle("schema-error-names-foreign-file", map[string]interface{}{"sources": loads[i].srcs, "error": ge.Message, "file": file,
+					"problem": "the error names a file that is not among the sources of this load"})
+			}
 			return // the prelude, or no file: C20's business
 		}
 		atomic.AddInt64(&nLoadErr, 1)
